@@ -373,6 +373,10 @@ package smf
 //@ loop 0 invariant r.SMF.format == old(r.SMF.format) && r.SMF.numTracks == old(r.SMF.numTracks) && r.SMF.TimeFormat == old(r.SMF.TimeFormat) && r.SMF.Tracks == old(r.SMF.Tracks)
 //@ loop 0 invariant old(forall i int :: 0 <= i && i < len(r.SMF.Tracks) ==> nonEmptyT(r.SMF.Tracks[i])) ==> ((forall i int :: 0 <= i && i < len(r.SMF.Tracks) ==> nonEmptyT(r.SMF.Tracks[i])) || (!r.isDone && !r.expectChunk && (r.input.sfault != nil || r.input.spos == r.input.sn)))
 //@ loop 0 invariant tcsOK(r.SMF.tempoChanges) && (r.SMF.tempoChanges == old(r.SMF.tempoChanges) || fresh(r.SMF.tempoChanges))
+// C11: a tempo event is registered in the tempo map at the absolute tick of the event itself (its delta included):
+// when the message of the round just finished (m survives to the loop head) is a tempo event, the last entry of the
+// map is at the running tick of the track.
+//@ loop 0 invariant [P:C11] (len(m) > 0 && smfTypeOf(len(m), m[0], m[1]) == MetaTempoMsg) ==> (len(r.SMF.tempoChanges) > 0 && r.SMF.tempoChanges[len(r.SMF.tempoChanges)-1].AbsTicks == absTicks)
 //@ loop 0 invariant old(r.input.spos) <= r.input.spos && r.input.spos <= r.input.sn
 //@ loop 0 decreases r.input.sn - r.input.spos
 
